@@ -20,6 +20,7 @@ FUNCTIONS = ['dd.bdd.BDD.quantify', 'dd.bdd.BDD._quantify', 'dd.bdd.BDD.exist',
 STUBS = ['BDD.ite -> contract (K3/K4)', 'BDD.find_or_add -> contract (K1)']
 
 ENTRIES = ['quantify_names', 'quantify_levels', 'exist_forall', 'apply']
+ALL_ENTRIES = ENTRIES + ['autoref_quantify', 'autoref_exist_forall']
 
 
 def subsets(L, maxq):
@@ -39,6 +40,7 @@ class Harness:
 
     def install(self):
         self.B = base.import_dd('dd.bdd')
+        self.A = base.import_dd('dd.autoref')
         self.sh = base.Shadow()
         base.std_shadows(self.sh, self.B)
 
@@ -50,6 +52,10 @@ class Harness:
         m = SymMgr(N, 0, L, with_cache=False, with_refs=False)
         m.assume_pre()
         assume_canon_real(m)
+        if entry.startswith('autoref'):
+            for k in m.ids:
+                c.assume(z3.Select(m.st0.RP, k) == z3.Select(m.st0.P, k))
+                c.assume(z3.Select(m.st0.RF, k) >= 0)
         bdd = m.install(self.B)
         world = StubWorld(m)
         world.install(bdd)
@@ -81,6 +87,15 @@ class Harness:
             elif entry == 'exist_forall':
                 f = bdd.forall if forall else bdd.exist
                 r = f([names[i] for i in qlev], SymInt(u))
+            elif entry.startswith('autoref'):
+                from .k6_autoref_ops import make_autoref
+                abdd = make_autoref(self.A, bdd)
+                fu = self.A.Function(SymInt(u), abdd)
+                if entry == 'autoref_quantify':
+                    r = abdd.quantify(fu, {names[i] for i in qlev}, forall).node
+                else:
+                    f = abdd.forall if forall else abdd.exist
+                    r = f({names[i] for i in qlev}, fu).node
             else:
                 r = bdd.apply('\\A' if forall else '\\E', SymInt(w), SymInt(u))
         except Exception as e:
@@ -135,6 +150,18 @@ def replay(case):
         elif entry == 'exist_forall':
             fn = bdd.forall if forall else bdd.exist
             r = fn([names[i] for i in qlev], a['u'])
+        elif entry.startswith('autoref'):
+            import dd.autoref as A
+            from .k6_autoref_ops import make_autoref
+            abdd = make_autoref(A, bdd)
+            for k in bdd._succ:
+                bdd._ref[k] += 1
+            fu = A.Function(a['u'], abdd)
+            if entry == 'autoref_quantify':
+                r = abdd.quantify(fu, {names[i] for i in qlev}, forall).node
+            else:
+                fn = abdd.forall if forall else abdd.exist
+                r = fn({names[i] for i in qlev}, fu).node
         else:
             r = bdd.apply('\\A' if forall else '\\E', a['w'], a['u'])
     except Exception as e:
